@@ -344,7 +344,14 @@ def make_focus(key):
 
     class F(base):
         def ops(self):
-            return [["start"], ["drain"], ["extra_ball"], ["end_ball"]]
+            out = [["start"], ["drain"], ["extra_ball"], ["end_ball"]]
+            # one lifecycle queue event can be held: requests then land between two turns
+            q = "player_turn_starting"
+            if q not in self.hold and q not in self.waits:
+                out.append(["hold", q])
+            if q in self.waits:
+                out.append(["clear", q])
+            return out
     F.__name__ = "GameFocus_" + key
     return F
 
